@@ -89,7 +89,7 @@ def literal(value, t):
 class Options:
     def __init__(self, floats=True, structs=True, pointers=True, switch=True, calls=True, tail_padding=False, sizeof_struct=False,
                  max_funcs=4, max_stmts=8, max_depth=3, goto=False, compound=True, narrow_unary=True, excluded=None,
-                 effects=0, many_params=0):
+                 effects=0, many_params=0, bare_literals=0):
         self.__dict__.update(locals())
         del self.__dict__["self"]
         self.excluded = excluded or {}
@@ -148,7 +148,20 @@ class _Gen:
         return self.pick(INT_NAMES)
 
     # -- expressions -----------------------------------------------------------
+    # unsuffixed literals whose TYPE follows from their value (C99 6.4.4.1, LP64): decimal -> int, long; hex -> int, unsigned,
+    # long, unsigned long
+    BARE_LITERALS = [
+        ("2147483647", "int"), ("2147483648", "long"), ("2147483649", "long"), ("4294967295", "long"), ("4294967296", "long"),
+        ("9223372036854775807", "long"), ("32768", "int"), ("65536", "int"),
+        ("0x7fffffff", "int"), ("0x80000000", "unsigned int"), ("0xffffffff", "unsigned int"), ("0x100000000", "long"),
+        ("0x7fffffffffffffff", "long"), ("0x8000000000000000", "unsigned long"), ("0xffffffffffffffff", "unsigned long"),
+        ("0xffff", "int"), ("0x8000", "int"), ("017777777777", "int"), ("020000000000", "unsigned int"),
+    ]
+
     def lit(self, t=None):
+        if t is None and self.opt.bare_literals and self.chance(self.opt.bare_literals):
+            self.features.add("bare_boundary_literal")
+            return self.pick(self.BARE_LITERALS)
         t = t or self.some_type()
         if is_float(t):
             v = self.pick([0.0, 1.0, -1.0, 0.5, 2.0, 3.25, -7.5, 100.0, 1e3, 0.1]) if self.chance(70) else float(self.draw(st.integers(-1000, 1000))) / 4
@@ -367,7 +380,9 @@ class _Gen:
             e, te = self.lit("int")
         c, tc = self.expr(scope, 2)
         tag = self.draw(st.integers(10, 19))
-        r = self.draw(st.integers(0, 11))
+        r = self.draw(st.integers(0, 12))
+        if r == 12:
+            return self.stmt_u64_to_float(scope, ind, out, sink, sinkt, e, te)
         self.features.add("side_effect_expr")
         cop = self.pick(["+=", "-=", "*=", "&=", "|=", "^=", "+=", "-="])
         ii = ind + "  "
@@ -430,6 +445,20 @@ class _Gen:
             self.features.add("incdec_value")
         out.append("%s{" % ind)
         out.extend(ii + b for b in body)
+        out.append("%s}" % ind)
+
+    def stmt_u64_to_float(self, scope, ind, out, sink, sinkt, e, te):
+        """A 64-bit unsigned value (often >= 2**63) is converted to double / float AND used again as an integer afterwards."""
+        if not self.opt.floats:
+            return
+        u, d = self.fresh("u"), self.fresh("d")
+        big = self.pick(["0x8000000000000000UL", "0xFFFFFFFFFFFFF800UL", "0x8000000000000400UL", "0xC000000000000000UL", "0x7FFFFFFFFFFFFFFFUL", "1UL"])
+        ft = self.pick(["double", "double", "float"])
+        self.features.add("u64_to_float_reuse")
+        out.append("%s{" % ind)
+        out.append("%s  unsigned long %s = (unsigned long)(%s) %s %s;" % (ind, u, e, self.pick(["|", "^", "+"]), big))
+        out.append("%s  %s %s = (%s)%s;" % (ind, ft, d, ft, u))
+        out.append("%s  %s = (long)(%s / 4398046511104.0) ^ (long)(%s >> %d);" % (ind, sink, d, u, self.draw(st.integers(0, 63))))
         out.append("%s}" % ind)
 
     def stmt_decl(self, scope, ind, out):
